@@ -265,3 +265,17 @@ sens("R6-flags-swapped", "R6", "R6/ti-lt", (TT, "            s_add_o_ext = other
 sens("R6-no-incomparable", "R6", "R6/ti-lt", (TT, "                if s_add_o_ext:\n                    assert False, f\"{self} and {other} are incomparable\"\n                return True", "                return True"))
 sens("R6-hand-gt", "R6", "R6/class", (TT, "@functools.total_ordering\n@dataclass(frozen=True)\nclass TieredInterval:", "@dataclass(frozen=True)\nclass TieredInterval:"), (TT, "    def __repr__(self):\n        return (\n            f\"{':'.join(map(str, self.add))}", "    def __le__(self, other):\n        return self < other or self == other\n\n    def __gt__(self, other):\n        return not self < other\n\n    def __ge__(self, other):\n        return not self < other\n\n    def __repr__(self):\n        return (\n            f\"{':'.join(map(str, self.add))}"))
 spec("R6s-hand-ops-right", "R6", (TT, "@functools.total_ordering\n@dataclass(frozen=True)\nclass TieredInterval:", "@dataclass(frozen=True)\nclass TieredInterval:"), (TT, "    def __repr__(self):\n        return (\n            f\"{':'.join(map(str, self.add))}", "    def __le__(self, other):\n        return self < other or self == other\n\n    def __gt__(self, other):\n        return other < self\n\n    def __ge__(self, other):\n        return not self < other\n\n    def __repr__(self):\n        return (\n            f\"{':'.join(map(str, self.add))}"))
+
+# ----------------------------------------------------------------------------- R24
+sens("R24-precomputed-set", "R24", "R24/returned", (UTIL, "    connected: Set[Entity] = set()\n\n    src_size, dest_size = len(src_set), len(dest_set)\n    pos = 0", "    src_size, dest_size = len(src_set), len(dest_set)\n    connected: Set[Entity] = set(dest_set[:src_size])\n    pos = 0"), (UTIL, "            connect(src, dest, *attrs)\n            connected.add(dest)\n        pos += dest_size", "            connect(src, dest, *attrs)\n        pos += dest_size"))
+sens("R24-add-src", "R24", "R24/returned", (UTIL, "            connect(src, dest, *attrs)\n            connected.add(dest)\n        pos += dest_size", "            connect(src, dest, *attrs)\n            connected.add(src)\n        pos += dest_size"))
+sens("R24-capacity-else", "R24", "R24/capacity", (UTIL, "        connected.add(dest)\n        connects[dest] = connects.get(dest, 0) + 1\n        if connects[dest] >= max_connects:\n            dest_set.remove(dest)\n            max_i -= 1\n", "        if dest not in connected:\n            connected.add(dest)\n            connects[dest] = 1\n        else:\n            connects[dest] += 1\n            if connects[dest] >= max_connects:\n                dest_set.remove(dest)\n                max_i -= 1\n"))
+sens("R24-capacity-gt", "R24", "R24/capacity", (UTIL, "        if connects[dest] >= max_connects:", "        if connects[dest] > max_connects:"))
+sens("R24-stride-one", "R24", "R24/chunk", (UTIL, "        pos += dest_size", "        pos += 1"))
+sens("R24-stride-src", "R24", "R24/chunk", (UTIL, "        pos += dest_size", "        pos += src_size"))
+sens("R24-m2o-skip", "R24", "R24/m2o", (UTIL, "    for src in src_set:\n        world.connect(src, dest, *attrs, async_requests=async_requests)", "    for src in src_set:\n        if src is not dest:\n            world.connect(src, dest, *attrs, async_requests=async_requests)"))
+sens("R24-m2o-no-async", "R24", "R24/m2o", (UTIL, "        world.connect(src, dest, *attrs, async_requests=async_requests)", "        world.connect(src, dest, *attrs)"))
+sens("R24-front-drop-max", "R24", "R24/front", (UTIL, "            world, src_set, dest_set, *attrs, max_connects=max_connects\n", "            world, src_set, dest_set, *attrs\n"))
+sens("R24-random-skip", "R24", "R24/once", (UTIL, "        dest = dest_set[i]\n        connect(src, dest, *attrs)", "        dest = dest_set[i]\n        if dest in connected and len(connected) < len(dest_set):\n            continue\n        connect(src, dest, *attrs)"))
+spec("R24s-idempotent-add", "R24", (UTIL, "        connect(src, dest, *attrs)\n        connected.add(dest)\n        connects[dest]", "        connect(src, dest, *attrs)\n        if dest not in connected:\n            connected.add(dest)\n        connects[dest]"))
+spec("R24s-len", "R24", (UTIL, "        pos += dest_size", "        pos += len(dest_set)"))
